@@ -40,7 +40,12 @@ type xl struct {
 	recPs                        []xlParam         // recursive callees of the current group (`rec_<fn>`)
 	dispatch                     map[string]string // interface method name -> dispatcher of the current group
 	flatKeys                     []string
-	goParamNames, leanParamNames []string // parameters by position (`$k` in fuel expressions)
+	recvAcc                      bool // whitelist Acc "$recv": the receiver is the threaded value and the only result
+	inStmtCall                   bool
+	mutated                      map[types.Object]bool // variables that are the target of an in-place mutation (functional update)
+	aliasPairs                   [][2]types.Object     // `a := b` / `a = b` between variables of a reference kind
+	accAlias                     map[types.Object]bool // `m := *ret`: a second name of the accumulator map
+	goParamNames, leanParamNames []string              // parameters by position (`$k` in fuel expressions)
 }
 
 type xlParam struct{ name, typ string }
@@ -286,8 +291,8 @@ func (x *xl) expr(e ast.Expr) ([]string, string, error) {
 		return nil, s, err
 	}
 	if x.w.dom {
-		if s, ok := x.domNew(e); ok {
-			return nil, s, nil
+		if b, s, ok, err := x.domNew(e); ok || err != nil {
+			return b, s, err
 		}
 	}
 	switch y := e.(type) {
@@ -362,6 +367,11 @@ func (x *xl) expr(e ast.Expr) ([]string, string, error) {
 	case *ast.BinaryExpr:
 		return x.binary(y)
 	case *ast.IndexExpr:
+		if x.w.dom {
+			if b, s, ok, err := x.domIndex(y); ok || err != nil {
+				return b, s, err
+			}
+		}
 		bs, es, err := x.exprs([]ast.Expr{y.X, y.Index})
 		if err != nil {
 			return nil, "", err
@@ -710,6 +720,8 @@ func (x *xl) sprintf(c *ast.CallExpr) ([]string, string, error) {
 				parts = append(parts, "Go.fmtS "+args[ai])
 			} else if rs[i] == 'd' && isInty(t) {
 				parts = append(parts, "Go.fmtD "+args[ai])
+			} else if bt, ok := t.Underlying().(*types.Basic); ok && rs[i] == 'd' && bt.Kind() == types.Uint && x.w.dom {
+				parts = append(parts, "Go.fmtD (Int.ofNat "+args[ai]+")")
 			} else {
 				return nil, "", x.errf(c, "format verb %%%c applied to %s", rs[i], t)
 			}
@@ -779,6 +791,11 @@ func (x *xl) call(c *ast.CallExpr) ([]string, string, error) {
 	}
 	switch f := c.Fun.(type) {
 	case *ast.Ident:
+		if x.w.dom {
+			if b, s, ok, err := x.domFuncValueCall(c, f); ok || err != nil {
+				return b, s, err
+			}
+		}
 		if bi, ok := info.Uses[f].(*types.Builtin); ok {
 			switch bi.Name() {
 			case "len":
@@ -792,6 +809,9 @@ func (x *xl) call(c *ast.CallExpr) ([]string, string, error) {
 				}
 				if _, ok := t.Underlying().(*types.Slice); ok {
 					return b, "(Go.lenL " + s + ")", nil
+				}
+				if _, ok := t.Underlying().(*types.Map); ok && x.w.dom && domKind(t) == "cont" {
+					return b, "(GoDom.mapLen " + s + ")", nil
 				}
 				return nil, "", x.errf(c, "len of %s", t)
 			case "append":
@@ -847,6 +867,9 @@ func (x *xl) call(c *ast.CallExpr) ([]string, string, error) {
 		if x.w.dom {
 			if sel, ok := info.Selections[f]; ok && sel.Kind() == types.MethodVal {
 				if b, s, ok, err := x.domMethod(c, f); ok || err != nil {
+					return b, s, err
+				}
+				if b, s, ok, err := x.domRegexpCall(c, f); ok || err != nil {
 					return b, s, err
 				}
 			}
@@ -907,8 +930,11 @@ func (x *xl) call(c *ast.CallExpr) ([]string, string, error) {
 		}
 		return nil, "", x.errf(c, "call of a non-function")
 	}
-	if bs, v, ok, err := x.flatCall(c, fn); ok {
-		return bs, v, err
+	if !(x.w.dom && x.f.External == "") {
+		// (DOM mode: callWhitelisted below coerces the arguments — nil-able parameters, interface conversions)
+		if bs, v, ok, err := x.flatCall(c, fn); ok {
+			return bs, v, err
+		}
 	}
 	// standard library
 	if fn.Pkg() != nil && !strings.HasPrefix(fn.Pkg().Path(), xlModule) {
@@ -926,6 +952,11 @@ func (x *xl) call(c *ast.CallExpr) ([]string, string, error) {
 				return nil, "", err
 			}
 			return bs, "(some ())", nil
+		}
+		if x.w.dom {
+			if b, s, ok, err := x.domStdlib(c, key); ok || err != nil {
+				return b, s, err
+			}
 		}
 		prims := map[string]struct {
 			lean  string
